@@ -411,6 +411,91 @@ def run(prog: Program) -> Results:
             res.add("R-C17-5", (root, "import argument is resolved before classification", hit[0].split(":")[0]), prog.func(root).loc(),
                     f"{root} reaches name resolution ({', '.join(hit)[:120]}) before the `NixPath` test: `let p = ./b.nix; in {{ x = import p; }}` "
                     f"is silently followed (and an unbound name raises a resolution error) instead of TypeError for a non-path argument")
+    # ------------------------------------------------------------- R-C17-6 every parenthesis layer is removed
+    r6 = res.rule("R-C17-6", "every parenthesis layer is removed before the path test: the value handed to the `NixPath` test is, on "
+                  "every path, known not to be a Parenthesis after its last assignment (`import ((./a.nix))` has a path argument)", floor=1)
+    _unwrapped_before_test(prog, res, r6, ra, fi)
     res.assumptions = ["the entry path is stored as given: if it is relative and the process later changes directory, "
                        "resolution follows the new directory (recorded in DESIGN.md, not decided)"]
     return res
+
+
+def _unwrapped_before_test(prog: Program, res: Results, r6, ra, fi) -> None:
+    from sa.cfg import ReachingDefs
+
+    def is_paren_test(a, x: str) -> bool:
+        """`isinstance(x, Parenthesis)` / `type(x) is Parenthesis`"""
+        if isinstance(a, ast.Call) and callee(a) == "isinstance" and len(a.args) == 2 and norm(a.args[0]) == x and "Parenthesis" in norm(a.args[1]):
+            return not isinstance(a.args[1], ast.Tuple) or len(a.args[1].elts) == 1
+        if isinstance(a, ast.Compare) and len(a.ops) == 1 and isinstance(a.ops[0], (ast.Is, ast.Eq)) and norm(a.comparators[0]).endswith("Parenthesis") \
+                and norm(a.left) in (f"type({x})", f"{x}.__class__"):
+            return True
+        return False
+
+    def by_match(g, node_ast, x: str) -> bool:
+        """the statement sits in a later arm of a `match` whose earlier, unguarded arm takes every Parenthesis: the subject (or
+        the arm's own capture of it) is then not a Parenthesis"""
+        for m_ in [n for n in walk_no_nested(g.node) if isinstance(n, ast.Match)]:
+            taken = False
+            for cs in m_.cases:
+                inside = any(node_ast is y for st in cs.body for y in ast.walk(st))
+                if inside:
+                    cap = cs.pattern.name if isinstance(cs.pattern, ast.MatchAs) and cs.pattern.pattern is None else None
+                    return taken and (norm(m_.subject) == x or cap == x)
+                p_ = cs.pattern
+                if isinstance(p_, ast.MatchClass) and norm(p_.cls).endswith("Parenthesis") and cs.guard is None and all(
+                        isinstance(sp, ast.MatchAs) and sp.pattern is None for sp in list(p_.patterns) + list(p_.kwd_patterns)):
+                    taken = True
+        return False
+
+    def check(g, cfg, rd, node, x: str, what: str) -> None:
+        r6.instances += 1
+        for _ in range(4):  # a plain copy (`target = inner`) carries the fact established for what it copies
+            ds = rd.defs_at(node, x)
+            d = next(iter(ds)) if len(ds) == 1 else None
+            if isinstance(d, ast.Assign) and len(d.targets) == 1 and isinstance(d.targets[0], ast.Name) and isinstance(d.value, ast.Name) \
+                    and cfg.node_of(d) is not None:
+                node, x = cfg.node_of(d), d.value.id
+            else:
+                break
+        e = edges_establishing(cfg, lambda a, t: t is False and is_paren_test(a, x))
+        ok = by_match(g, node.ast, x)
+        if not ok and e and cfg.all_paths_pass(node, cut_edges=e):
+            # … and no assignment of x lies between the test and here
+            defs = [n for n in cfg.nodes if x in rd.gen.get(n, {})]
+            ok = all(node not in cfg.reachable(d, removed_edges=e) or d is node for d in defs)
+        r6.ob(ok, {"site": g.key, what: norm(node.ast)[:60], "value": x})
+        if not ok:
+            res.add("R-C17-6", (g.key, "parenthesis layer may remain", what), g.loc(node.ast),
+                    f"{g.key}: `{norm(node.ast)[:60]}` hands on `{x}` without the fact `not isinstance({x}, Parenthesis)` holding on every "
+                    f"path after its last assignment: a path wrapped in more than one pair of parentheses reaches the `NixPath` test "
+                    f"still wrapped and is refused with TypeError instead of being followed")
+
+    if ra is not None and ra is not fi:
+        cfg = CFG(ra.node)
+        rd = ReachingDefs(cfg)
+        res.analysed_functions.add(ra.key)
+        for rt in [n for n in cfg.nodes if n.kind == "return" and n.ast.value is not None]:
+            v = rt.ast.value
+            vals = [v.body, v.orelse] if isinstance(v, ast.IfExp) else [v]
+            for x in vals:
+                if isinstance(x, ast.Call) and callee(x) == ra.name:
+                    continue  # the recursive call hands back an unwrapped value (induction)
+                if isinstance(v, ast.IfExp) and isinstance(x, ast.Name) and is_paren_test(v.test, x.id) and x is v.orelse:
+                    r6.instances += 1
+                    r6.ob(True, {"site": ra.key, "return": norm(rt.ast)[:60]})
+                    continue
+                if isinstance(x, ast.Name):
+                    check(ra, cfg, rd, rt, x.id, "return")
+                else:
+                    res.unclass(f"{ra.key}: `{norm(rt.ast)[:60]}` returns an expression whose parenthesis layers cannot be followed")
+        return
+    # the unwrapping is written in the function that tests for NixPath
+    cfg = CFG(fi.node)
+    rd = ReachingDefs(cfg)
+    tests = [(n, a.args[0].id) for n in cfg.nodes if n.kind == "test" for a in ast.walk(n.ast)
+             if isinstance(a, ast.Call) and callee(a) == "isinstance" and len(a.args) == 2 and isinstance(a.args[0], ast.Name) and "NixPath" in norm(a.args[1])]
+    if not tests:
+        res.unclass(f"{fi.key}: the `isinstance(<argument>, NixPath)` test was not found")
+    for n, x in tests:
+        check(fi, cfg, rd, n, x, "path test")
